@@ -50,4 +50,27 @@ TableLaws ==
   /\ ~row.watfeature => Lookup(row) # "loaded:wat"
 
 EmitReplay == PrintT(<<"REPLAY", ToJson([row |-> row, expect |-> Lookup(row)])>>)
+
+(***************************************************************************)
+(* Requests with several keys: every key is looked up on its own.  In the  *)
+(* lenient mode a missing package is skipped and the others are returned;  *)
+(* in the strict mode the request fails for the first missing key.         *)
+(* Slots: a, b (unversioned, present), v (versioned, present), m, n        *)
+(* (absent, n versioned).                                                  *)
+(***************************************************************************)
+Slots == {"a", "b", "v", "m", "n"}
+Present == {"a", "b", "v"}
+NoRepeat(s) == \A i, j \in DOMAIN s : i # j => s[i] # s[j]
+Requests == {s \in UNION {[1..k -> Slots] : k \in 2..3} : NoRepeat(s) /\ \E i \in DOMAIN s : s[i] \notin Present}
+MultiLookup(s, strict) ==
+  LET missing == {i \in DOMAIN s : s[i] \notin Present}
+  IN IF strict /\ missing # {}
+     THEN [outcome |-> "unknown", key |-> s[CHOOSE i \in missing : \A j \in missing : i <= j], loaded |-> {}]
+     ELSE [outcome |-> "ok", key |-> "-", loaded |-> {s[i] : i \in DOMAIN s} \cap Present]
+\* the presence of a missing key never changes what the other keys get
+KeysIndependent ==
+  \A s \in Requests : MultiLookup(s, FALSE).loaded = {s[i] : i \in DOMAIN s} \cap Present
+ASSUME KeysIndependent
+ASSUME \A s \in Requests : \A strict \in BOOLEAN :
+         PrintT(<<"MULTI", ToJson([req |-> s, strict |-> strict, expect |-> MultiLookup(s, strict)])>>)
 ====
